@@ -206,9 +206,11 @@ theorem Inv.free {c : CQ} (h : Inv F ext c) (v : Int) (env : Env) : Inv F ext (c
             exact h2
 
 /-- the hand-over of a delivered pair to the unit module -/
-theorem Inv.handOver {c : CQ} (h : Inv F ext c) {q : Nat} (v : Option Int) (hq : q ∉ mapped c) (hu : q ∈ c.used)
-    (hk : (q : Int) ∈ keys c.qlist) (hneg : (-(1 + (q : Int))) ∉ keys c.qlist) : Inv F ext (c.handOver q v).2 := by
+theorem Inv.handOver {c : CQ} (h : Inv F ext c) {q : Nat} (bad : Bool) (v : Option Int) (hq : q ∉ mapped c) (hu : q ∈ c.used)
+    (hk : (q : Int) ∈ keys c.qlist) (hneg : (-(1 + (q : Int))) ∉ keys c.qlist) : Inv F ext (c.handOver q bad v).2 := by
   unfold CQ.handOver
+  split
+  · exact h.leak 1
   split
   · rename_i v um hum
     split
@@ -218,7 +220,8 @@ theorem Inv.handOver {c : CQ} (h : Inv F ext c) {q : Nat} (v : Option Int) (hq :
       exact h.mapSlot hum (slotGet_empty hs) hq hu hk hneg
   · exact h.leak 1
 
-theorem Inv.eprCreate {c : CQ} (h : Inv F ext c) (ok : Bool) (v : Option Int) (env : Env) : Inv F ext (c.eprCreate ok v env).st := by
+theorem Inv.eprCreate {c : CQ} (h : Inv F ext c) (ok bad : Bool) (v : Option Int) (env : Env) :
+    Inv F ext (c.eprCreate ok bad v env).st := by
   have hfree := firstFree_not_mem c.used
   obtain ⟨hk1, hk2⟩ := h.not_key_of_not_used hfree
   have hnm := h.not_mapped_of_not_used hfree
@@ -251,7 +254,7 @@ theorem Inv.eprCreate {c : CQ} (h : Inv F ext c) (ok : Bool) (v : Option Int) (e
           · exact h3.leak 2
           · have h4 := h3.kill (k := -(1 + (firstFree c.used : Int))) (t := c.node.next + 1)
               (aGet_aSet_self _ _ _) (by intro p _; omega)
-            apply Inv.handOver h4 v hnm mem_cons_self
+            apply Inv.handOver h4 bad v hnm mem_cons_self
             · show _ ∈ keys (aDel (aSet (aSet _ _ _) _ _) _)
               rw [keys_aDel, mem_filter]
               refine ⟨?_, by simpa using (neg_ne_ofNat _ _).symm⟩
@@ -260,7 +263,8 @@ theorem Inv.eprCreate {c : CQ} (h : Inv F ext c) (ok : Bool) (v : Option Int) (e
             · show _ ∉ keys (aDel (aSet (aSet _ _ _) _ _) _)
               rw [keys_aDel, mem_filter]; simp
 
-theorem Inv.eprRecv {c : CQ} (h : Inv F ext c) (s r : Int) (v : Option Int) (env : Env) : Inv F ext (c.eprRecv s r v env).st := by
+theorem Inv.eprRecv {c : CQ} (h : Inv F ext c) (s r : Int) (bad : Bool) (v : Option Int) (env : Env) :
+    Inv F ext (c.eprRecv s r bad v env).st := by
   have hfree := firstFree_not_mem c.used
   obtain ⟨hk1, hk2⟩ := h.not_key_of_not_used hfree
   have hnm := h.not_mapped_of_not_used hfree
@@ -280,7 +284,7 @@ theorem Inv.eprRecv {c : CQ} (h : Inv F ext c) (s r : Int) (v : Option Int) (env
         (by rw [physOf_ofNat]; exact mem_cons_self) (fun p _ => neg_ne_ofNat p _)
       split
       · exact h3.leak 1
-      · apply Inv.handOver h3 v hnm mem_cons_self
+      · apply Inv.handOver h3 bad v hnm mem_cons_self
         · show _ ∈ keys (aSet _ _ _); rw [mem_keys_aSet]; exact Or.inr rfl
         · show _ ∉ keys (aSet _ _ _); rw [mem_keys_aSet]; intro hh; rcases hh with hh | hh
           · exact hk2 hh.1
@@ -298,7 +302,7 @@ theorem Inv.q {c : CQ} (h : Inv F ext c) (req : QReq) (env : Env) : Inv F ext (c
   | gate2 g v w => exact h.gate2 g v w env
   | meas v => exact h.meas v env
   | free v => exact h.free v env
-  | eprCreate ok v => exact h.eprCreate ok v env
-  | eprRecv s r v => exact h.eprRecv s r v env
+  | eprCreate ok bad v => exact h.eprCreate ok bad v env
+  | eprRecv s r bad v => exact h.eprRecv s r bad v env
 
 end SqVerif.NqExec
